@@ -94,6 +94,11 @@ type Source struct {
 
 	// wg tracks the number of in flight calls to the connectorPlugin.
 	wg sync.WaitGroup
+	// closing is set by Teardown (under Instance's lock) when it cancels the
+	// stream, right before it waits on wg without holding that lock. From then
+	// on preparePluginCall refuses new plugin calls, so no wg.Add can race the
+	// wg.Wait in Teardown (sync.WaitGroup panics on that misuse).
+	closing bool
 
 	// ackMu guards pendingAcks, nextAckSeq and durableAckSeq below. It is
 	// deliberately separate from Instance's RWMutex: onPersistFlushed runs
@@ -424,6 +429,7 @@ func (s *Source) Teardown(ctx context.Context) error {
 	if s.stopStream != nil {
 		s.stopStream()
 	}
+	s.closing = true
 	s.Instance.Unlock()
 
 	// Join the delivery goroutine before waiting on in-flight plugin calls and
@@ -887,7 +893,7 @@ func (s *Source) OnDelete(ctx context.Context) (err error) {
 func (s *Source) preparePluginCall() (func(), error) {
 	s.Instance.RLock()
 	defer s.Instance.RUnlock()
-	if s.plugin == nil {
+	if s.plugin == nil || s.closing {
 		return func() { /* do nothing */ }, plugin.ErrPluginNotRunning
 	}
 	// increase wait group so Teardown knows a call to the plugin is running
